@@ -1057,9 +1057,19 @@ class WorkflowConductor(object):
                         # Add a backref for the current task in the next task.
                         staged_next_task["prev"][backref] = task_state_idx
 
-                        # Clear list of items for with items task.
-                        staged_next_task.pop("items", None)
-                        staged_next_task.pop("completed", None)
+                        # Clear list of items for with items task if the previous execution
+                        # of the task is completed. Otherwise, the task is either offered but
+                        # not started or still running, and the items track its actions.
+                        next_task_state_entry = self.get_task_state_entry(
+                            next_task_id, next_task_route
+                        )
+
+                        if (
+                            next_task_state_entry
+                            and next_task_state_entry.get("status") in statuses.COMPLETED_STATUSES
+                        ):
+                            staged_next_task.pop("items", None)
+                            staged_next_task.pop("completed", None)
                     else:
                         # Otherwise create a new entry in staging for the next task.
                         staged_next_task = self.workflow_state.add_staged_task(
